@@ -258,6 +258,14 @@ func runC07(c *Ctx) {
 		runSurveyorScenario(c, 25, true) // an accepted survey time of zero means no limit
 	}
 	// raw SURVEYOR: no survey state, but every connected respondent is sent each survey, queue space permitting
+	// "each RESPONDENT answer reaches only the surveyor that asked": the reply-side machine of C05 on the two respondent flavours
+	for i := 0; i < n/2; i++ {
+		for _, fl := range repFlavors {
+			if fl.name == "respondent" || fl.name == "xrespondent" {
+				runRepScenario(c, fl, 50)
+			}
+		}
+	}
 	for i := 0; i < n; i++ {
 		runFanoutScenario(c, "XSURVEYOR", "respondent", xsurveyor.NewProtocol(), be32(0x80000000|uint32(i+1)), false, 40)
 	}
